@@ -4,42 +4,44 @@ from vlib import std, hbuild, recipes
 
 PID = "C24"
 META = {
-    "text": "15 theorems (Properties_C24.v, all closed under the global context) about an executable model of "
+    "text": "20 theorems (Properties_C24.v, all closed under the global context) about an executable model of "
             "TeChunkedParser::parse and of its callers' loop (inBuf = remaining() + newly read bytes; output MemBuf with a "
-            "per-call potentialSpaceSize). C24_dechunk_exact / C24_dechunk_safe_for_every_schedule: for EVERY body and every RFC 9112 "
-            "chunking of it produced by an independent encoder (chunk-size = any hex digits of value < 2^63 incl. leading zeros and "
-            "mixed case; chunk-ext = *(BWS ; BWS token [BWS = BWS (token | quoted-string with quoted-pairs)]); last-chunk with "
-            "extensions; trailer fields, section < 64 KB), followed by arbitrary bytes, for EVERY segmentation into reads and EVERY "
-            "schedule of output capacities, in both relaxed_header_parser modes: the decoder never throws, never gets stuck, never "
-            "reports completion early, its output is always a prefix of the body; and as soon as the whole encoding has been delivered "
-            "and the capacities offered from then on add up to |body| it returns true with output = body and remaining() = exactly the "
-            "bytes after the encoding (bytes consumed = the encoding). C24_truncated_only_asks_for_more: any schedule delivering only a "
-            "proper prefix of a valid encoding ends in 'need more'. Rejections, for every continuation of the input, every capacity, "
-            "both modes: 0x/0X prefix, non-hex first size character, size >= 2^63 (any number of digits), a byte other than BWS/;/CR "
-            "after the size (missing CRLF), chunk data not followed by CRLF; decided outcomes of the chunk-ext stage are final under "
-            "more input. The three character classes used by the grammar are proved equal to the regenerated/ modelled sets "
-            "(vm_compute sweep over 256 entries). C24_malformed_ext_trailing_bws_refuted: witness that acceptance of `;a=b BWS CRLF` "
-            "depends on segmentation (known finding). The model is tied to the code by differential runs of the extracted model "
-            "against the real TeChunkedParser writing into real MemBufs (sources compiled from the working tree, UBSan), per-call "
-            "trace (result, stage, needsMoreData/Space, |remaining()|, bytes appended), final state, remaining() and output compared.",
-    "note": "PARTIAL in these respects: (1) 'malformed extensions are rejected' holds only per buffer "
-            "(C24_malformed_ext_trailing_bws_unsplit_partial); across segmentations it is refuted for the pinned code "
-            "(C24_malformed_ext_trailing_bws_refuted, known finding C24-ext-trailing-bws-segmentation, reproducers in corpus/C24/known.txt, "
-            "candidate repair fixes/C24-ext-trailing-bws.diff); malformed extension names/values (EExtName, EToken, EQPair, EQdtext) are "
-            "covered by correspondence and the oracle, not by a dedicated theorem. (2) Rejection theorems are statements about one "
-            "parse() call from the relevant stage for every continuation; that earlier reads of a prefix cannot turn them into acceptance "
-            "rests on the checkpoint structure proved for valid inputs and on correspondence. (3) Hypotheses of the exactness theorem that "
-            "reflect real limits: trailer section (incl. final CRLF) < 65536 bytes (grabMimeBlock limit, otherwise the parser stops "
-            "with parse()==false and !needsMoreData()), every chunk-size numeral and every single chunk extension shorter than "
-            "2^32-1 bytes (SBuf::npos limit argument of Tokenizer::prefix/int64). (4) Not modelled: mimeHeader() contents "
-            "(cleanMimePrefix/unfoldMime of the trailer block), customExtensionValueParser (ICAP use-original-body). BWS tolerated after "
-            "chunk-size without extensions (Bug 4492) and VT/FF/bare-CR as BWS in relaxed mode are tolerances the oracle does not judge. "
-            "Trusted: Coq kernel, extraction, harness/h_chunked.cc, gen/gen_charsets.cc; the hand-written ChunkedModel.v is validated "
-            "against the code only on the generated cases (12.7k quick / 150k thorough).",
-    "technique": "Coq proof: stability-under-extension of every Tokenizer primitive and parser stage, restart-point lemma for the "
-                 "chunk-ext checkpoint with conditional commutation, inductive invariant of one parse() call (induction on fuel) and of "
-                 "the callers' loop (induction on the schedule), grammar-as-encoder instantiation; vm_compute sweeps over regenerated "
-                 "256-entry tables; + extracted-model differential correspondence + independent RFC 9112 reference reader as oracle",
+            "per-call potentialSpaceSize). (a) C24_segmentation_independent / C24_any_two_segmentations_agree / "
+            "..._from_checkpoint: for EVERY input (valid or malformed, < 4 GiB), every way of cutting it into reads, both "
+            "relaxed_header_parser modes, with output space that never fills, the read loop ends in exactly the outcome of one "
+            "parse() on the whole input: same kind (done / exception kind / trailer too big / need more), same decoded bytes, same "
+            "remaining() (hence consumed length) - instance of the generic Incremental.v theorem, from C24_definitive_outcomes_stable "
+            "and C24_checkpoints_commute, which hold unconditionally since the repair 1aa8f1c. (b) C24_dechunk_exact / "
+            "C24_dechunk_safe_for_every_schedule: for every body and every RFC 9112 chunking of it produced by an independent encoder "
+            "(chunk-size = any hex digits of value < 2^63 incl. leading zeros and mixed case; chunk-ext = *(BWS ; BWS token [BWS = BWS "
+            "(token | quoted-string with quoted-pairs)]); last-chunk with extensions; trailer fields, section < 64 KB), followed by "
+            "arbitrary bytes, for every segmentation AND every schedule of output capacities: never an exception, never stuck, never "
+            "early completion, output always a prefix of the body; once the whole encoding has been delivered and the capacities "
+            "offered from then on add up to |body|, parse() returns true with output = body and remaining() = exactly the bytes after "
+            "the encoding. C24_truncated_only_asks_for_more. (c) Rejections for every continuation, every capacity, both modes: 0x/0X "
+            "prefix, non-hex size, size >= 2^63 (any number of digits), missing CRLF after size, chunk data not followed by CRLF, BWS "
+            "between a chunk extension and CRLF (C24_rejects_ext_trailing_bws) - and, by (a), for every segmentation "
+            "(C24_rejects_ext_trailing_bws_for_every_segmentation). The three character classes of the grammar are proved equal to the "
+            "regenerated / modelled sets (256-entry sweeps). The model is tied to the code by differential runs of the extracted model "
+            "against the real TeChunkedParser writing into real MemBufs (sources compiled from the working tree, UBSan): per-call trace "
+            "(result, stage, needsMoreData/Space, |remaining()|, bytes appended), final state, remaining() and output compared.",
+    "note": "Former finding C24-ext-trailing-bws-segmentation was repaired in /repo 1aa8f1c (ParseStrictBws moved into parseChunkSize); "
+            "the model follows the repaired code, the reproducers are kept as corpus/C24/regress.txt, and the property is now a theorem "
+            "for every segmentation. Remaining limits of the claim: (1) segmentation independence (a) is stated for ample output space "
+            "(the http.cc situation); with limited space the decoder legitimately stops earlier, which is what (b) covers for valid "
+            "encodings; for malformed input under limited space the rejection theorems are per parse() call. Malformed extension "
+            "names/values (EExtName, EToken, EQPair, EQdtext) have no dedicated theorem but fall under (a) + correspondence. (2) Real "
+            "limits appear as hypotheses: trailer section (incl. final CRLF) < 65536 bytes (grabMimeBlock; beyond it parse()==false with "
+            "!needsMoreData(), classified BTooBig), inputs / numerals / single extensions shorter than 2^32-1 bytes (SBuf::npos). "
+            "(3) Not modelled: mimeHeader() contents (cleanMimePrefix/unfoldMime of the trailer block), customExtensionValueParser "
+            "(ICAP use-original-body). BWS after chunk-size without extensions (Bug 4492) and VT/FF/bare-CR as BWS in relaxed mode are "
+            "tolerances the oracle does not judge. Trusted: Coq kernel, extraction, harness/h_chunked.cc, gen/gen_charsets.cc; the "
+            "hand-written ChunkedModel.v is validated against the code only on the generated cases (12.7k quick / 150k thorough).",
+    "technique": "Coq proof: stability-under-extension of every Tokenizer primitive and parser stage for arbitrary buffers, restart-point "
+                 "lemma for the chunk-ext checkpoint, fuel-independence and output-prefix lemmas for the parse loop, instantiation of "
+                 "Incremental.v (drive = one-shot); inductive invariant of one parse() call and of the callers' loop over capacity "
+                 "schedules for grammatical input (grammar-as-encoder); vm_compute sweeps over regenerated 256-entry tables; + "
+                 "extracted-model differential correspondence + independent RFC 9112 reference reader as oracle",
 }
 
 FRESH = ["src/http/one/TeChunkedParser.cc", "src/http/one/Tokenizer.cc", "src/parser/Tokenizer.cc",
